@@ -14,7 +14,7 @@ from gvmon.gen import records as R
 from gvmon.models import dialect as M
 from gvmon.monitors import contracts, sqltrace
 
-RULE = ("files of n in {1,2,3,5,10,11,12,25,40} feature lines rendered in one of 48 dialect points (uniform regime: every "
+RULE = ("files of n in {1,2,3,5,10,11,12,25,40} (rarely 1001-2100) feature lines rendered in one of 48 dialect points (uniform regime: every "
         "line exhibits every dialect feature; sparse regime: arbitrary line shapes, kept only when the reference vote "
         "recovers the dialect), x checklines in {0,1,2,10,n-1,n,n+2} x {file,:memory:} x {error+unique ids, "
         "create_unique+duplicate ids} x keep_order x sort_attribute_values x {path, from_string}, with '.' coordinates, "
@@ -47,6 +47,8 @@ def setup(ctx):
 def gen_case(rng):
     D = rng.choice(M.points())
     n = rng.choice(NS)
+    if rng.random() < 0.004:
+        n = rng.choice([1001, 1500, 2100])   # beyond the importers' internal 1000-feature thresholds
     regime = "uniform" if rng.random() < 0.65 else "sparse"
     strategy = rng.choice(["error", "error", "create_unique"])
     ids = "unique" if strategy == "error" else "dups"
